@@ -115,3 +115,21 @@ def _none_arm(src):
 
 
 register("srv_worker_none_arm", span_custom(_W, _none_arm))
+
+
+_G = "actix-server/src/signals.rs"
+
+
+def _sig_table(src):
+    """`Signals::new`: the table OS signal -> `SignalKind` (unix). An unrecognised shape yields an empty table."""
+    m = re.search(r"let sig_map = \[(.*?)\];", src, re.S)
+    if not m:
+        return "def sigMapTable : List (String × Signal) := []", src[:200]
+    rows = re.findall(r"\(\s*unix::SignalKind::(\w+)\(\)\s*,\s*SignalKind::(\w+)\s*\)", m.group(1))
+    if not rows or any(k not in ("Int", "Term", "Quit") for _, k in rows):
+        return "def sigMapTable : List (String × Signal) := []", m.group(0)
+    lean = "def sigMapTable : List (String × Signal) := [%s]" % ", ".join('("%s", .%s)' % (u, k) for u, k in rows)
+    return lean, m.group(0)
+
+
+register("srv_signal_table", span_custom(_G, _sig_table))
